@@ -140,11 +140,23 @@ def forward_refs(rep, tier):
     rep.cov["traces_validated_against_impl"] += n
 
 
+def discriminated_first_use(rep, wd):
+    """the per-format method of a discriminated variant is compiled on demand by whoever uses the variant first under that
+    format -- the class-level dispatch or a holder nesting it: both orders give the reference round trip (MC_C04 dfvec records)"""
+    from harness.checks import c04
+    r = tlc.run_tlc("MC_C04", workdir=wd, workers=16, timeout=1800)
+    rep.add_tlc(r, "MC_C04 (discriminated format families: expected documents; both orders of first use replayed)")
+    if r.violated:
+        raise tlc.MachineryError(f"model property violated on the reference spec: {r.violated}")
+    c04.discr_families(rep, r.printed, clause_map={"format-roundtrip": "compilation-order", "format-document": None, "build": "build"})
+
+
 def run(rep, tier, seed):
     wd = tlc.scratch()
     forced_schedules(rep, tier, wd)
     stress(rep, tier, seed, wd)
     forward_refs(rep, tier)
+    discriminated_first_use(rep, wd)
 
 
 def replay(rec, path):
